@@ -395,4 +395,81 @@ theorem dev_field_rt (ar : Arith) (o : Opts) (ds : List Desc) (mesgNum : Nat) (d
       | err => rw [hm] at hrt; cases hrt
       | unmodelled => rw [hm] at hrt; cases hrt
 
+/-! ### sub-field substitution and its reversal -/
+
+/-- regenerated tables: a sub-field name is never a name of the reader's field table for the message (so the cell becomes
+a placeholder), is non-empty and not "unknown…", and within a message a sub-field name belongs to one main field only -/
+def subNamesOK : Bool :=
+  profile.all fun m => m.num ≥ mfgRangeMin || m.fields.all fun p => p.subs.all fun s =>
+    (lookupFieldNum m.num (txt s.name)).isNone && !(txt s.name).isEmpty && !isPrefixOf' unknownTxt (txt s.name) &&
+    m.fields.all fun p' => p'.subs.all fun s' => !(txt s'.name == txt s.name) || decide (p' = p)
+
+set_option maxRecDepth 100000 in
+theorem subNamesOK_true : subNamesOK = true := by decide +kernel
+
+theorem sub_facts {m : PMesg} {p : PField} {s : PSub} (hm : m ∈ profile) (hn : m.num < mfgRangeMin) (hp : p ∈ m.fields)
+    (hs : s ∈ p.subs) :
+    lookupFieldNum m.num (txt s.name) = none ∧ (txt s.name).isEmpty = false ∧ isPrefixOf' unknownTxt (txt s.name) = false ∧
+    ∀ p' ∈ m.fields, ∀ s' ∈ p'.subs, txt s'.name = txt s.name → p' = p := by
+  have h := subNamesOK_true
+  simp only [subNamesOK, List.all_eq_true, Bool.or_eq_true, decide_eq_true_eq, Bool.and_eq_true, Option.isNone_iff_eq_none,
+    Bool.not_eq_true', beq_iff_eq] at h
+  rcases h m hm with h1 | h2
+  · omega
+  · obtain ⟨⟨⟨a, b⟩, c⟩, d⟩ := h2 p hp s hs
+    refine ⟨a, b, c, fun p' hp' s' hs' hname => ?_⟩
+    rcases d p' hp' s' hs' with h | h
+    · simp only [beq_eq_false_iff_ne, ne_eq] at h; exact absurd hname h
+    · exact h
+
+/-- **writer**: a field one of whose sub-fields applies is written under the sub-field's name and units (the value as
+for the main field) -/
+theorem subfield_write (o : Opts) (msg : Message) (fld : Field) (p : PField) (s : PSub)
+    (hp : pfield msg.num (fieldNumOf fld) = some p) (hdeg : o.degrees = false) (hsub : substitute msg.fields p.subs = some s) :
+    writeField o msg fld = ⟨txt s.name, fieldAtoms o (txt p.units) p.scale p.offset fld.value, txt s.units⟩ := by
+  simp [writeField, hp, hsub, hdeg]
+
+/-- **reader, first pass**: the cell is kept as a placeholder (no native field and no developer field has that name) -/
+theorem subfield_placeholder (ar : Arith) (ds : List Desc) (pm : PMesg) (p : PField) (s : PSub) (hm : pm ∈ profile)
+    (hn : pm.num < mfgRangeMin) (hp : p ∈ pm.fields) (hs : s ∈ p.subs) (val : List Atom) (units : Txt)
+    (hds : ds.reverse.find? (fun d => d.name == txt s.name) = none) :
+    readCell ar ds pm.num ⟨txt s.name, val, units⟩ = .ok (.placeholder (txt s.name) val) := by
+  obtain ⟨h1, h2, h3, _⟩ := sub_facts hm hn hp hs
+  simp only [readCell, h2, Bool.false_eq_true, ↓reduceIte, h1, h3, hds]
+
+/-- **reader, second pass** (`revertSubFieldSubtitution`): when one of the sub-field's maps matches the reference field as
+read so far, the placeholder is replaced by the MAIN field, its value parsed with the main field's base type, scale,
+offset and units — the sub-field's name designates one main field only -/
+theorem subfield_revert (ar : Arith) (mesgNum : Nat) (pm : PMesg) (p : PField) (s : PSub) (hpm : pmesg mesgNum = some pm)
+    (hn : mesgNum < mfgRangeMin) (hp : p ∈ pm.fields) (hs : s ∈ p.subs) (fields : List Field) (mp : Nat × Int) (hmp : mp ∈ s.maps)
+    (hmatch : toInt64 (fvalFirst fields mp.1) = some mp.2) (a : Atom) (v : Value)
+    (hparse : parseAtom ar a p.bt p.isBool p.scale p.offset (txt p.units) = .ok v) :
+    revert ar mesgNum fields (txt s.name) [a] = .ok (some (mkField p.num p.bt v)) := by
+  have hm : pm ∈ profile := List.mem_of_find?_eq_some hpm
+  have hnum : pm.num = mesgNum := by simpa using List.find?_some hpm
+  obtain ⟨_, _, _, huniq⟩ := sub_facts hm (hnum ▸ hn) hp hs
+  unfold revert
+  rw [hpm]
+  simp only
+  generalize hc : (pm.fields.flatMap fun p => (p.subs.filter fun s' => txt s'.name == txt s.name).flatMap fun s' => s'.maps.map fun mp => (p, mp)) = cands
+  have hA : (p, mp) ∈ cands := by
+    rw [← hc]
+    simp only [List.mem_flatMap, List.mem_filter, List.mem_map, beq_iff_eq]
+    exact ⟨p, hp, s, ⟨hs, rfl⟩, mp, hmp, rfl⟩
+  have hB : ∀ c ∈ cands, c.1 = p := by
+    intro c hcm
+    rw [← hc] at hcm
+    simp only [List.mem_flatMap, List.mem_filter, List.mem_map, beq_iff_eq] at hcm
+    obtain ⟨p', hp', s', ⟨hs', hname⟩, mp', _, rfl⟩ := hcm
+    exact huniq p' hp' s' hs' hname
+  cases hf : cands.find? (fun c => toInt64 (fvalFirst fields c.2.1) == some c.2.2) with
+  | none =>
+    have := List.find?_eq_none.mp hf (p, mp) hA
+    simp [hmatch] at this
+  | some c =>
+    obtain ⟨p', mp'⟩ := c
+    have : p' = p := hB (p', mp') (List.mem_of_find?_eq_some hf)
+    subst this
+    simp only [hparse]
+
 end Fit.Csv
